@@ -59,6 +59,52 @@ func checkBigIntOwnership(p *an.Prog, r *an.Run) {
 			})
 		}
 	}
+	// no-field-to-callback: the address of a big.Int field of a record (a balance read from the store) is not handed to
+	// a function VALUE (a configured callback such as the fee function, which is entitled to work in place on its
+	// argument): the record would be rewritten behind the code that goes on to use it
+	for _, fn := range p.Repo {
+		if p.IsTestFunc(fn) || isTestDoublePkg(fn) || strings.HasSuffix(p.File(fn.Pos()), "testsuite.go") {
+			continue
+		}
+		an.AllInstrs(fn, func(in ssa.Instruction) {
+			fa, ok := in.(*ssa.FieldAddr)
+			if !ok || !isBigIntPtr(fa.Type()) {
+				return
+			}
+			seen := map[ssa.Value]bool{}
+			var fwd func(v ssa.Value)
+			fwd = func(v ssa.Value) {
+				if seen[v] || v.Referrers() == nil {
+					return
+				}
+				seen[v] = true
+				for _, ref := range *v.Referrers() {
+					switch t := ref.(type) {
+					case *ssa.Phi:
+						fwd(t)
+					case ssa.CallInstruction:
+						cc := t.Common()
+						if cc.IsInvoke() || cc.StaticCallee() != nil {
+							continue
+						}
+						if _, isBuiltin := cc.Value.(*ssa.Builtin); isBuiltin {
+							continue
+						}
+						for _, a := range cc.Args {
+							if a == v {
+								fname := "?"
+								if fv := an.FieldOf(fa); fv != nil {
+									fname = fv.Name()
+								}
+								bad = append(bad, an.FuncName(fn)+" hands the address of the record's own "+fname+" ("+p.Pos(fa.Pos())+") to a function value at "+p.Pos(t.Pos())+": a callback that adjusts its argument in place (the fee function does) rewrites the record the caller goes on to use")
+							}
+						}
+					}
+				}
+			}
+			fwd(fa)
+		})
+	}
 	r.Floor("bigint-destinations", nDest, 10)
 	_ = nRet
 	r.Check(len(bad) == 0, "bigint-private", "repo", token.NoPos, "every in-place big.Int operation works on a value the function owns; no *big.Int result aliases a parameter's field", "%s", strings.Join(dedup(bad), "; "))
